@@ -468,6 +468,10 @@ class RSocketBase(RSocket, RSocketInternal):
 
         await self._stop_tasks()
 
+        # requests issued after the connection was lost (or while it was being swept) are still
+        # registered: nothing else would ever complete them
+        self.stop_all_streams()
+
         await self._close_transport()
 
     async def _stop_tasks(self):
